@@ -1,5 +1,6 @@
 """C11 — Pool worker count is exact and bounded (structural clauses)."""
 from rules.common import start
+from rules import wave2
 from rules import pool, sched
 
 
@@ -15,4 +16,6 @@ def run(tier):
     pool.running_rule(run, f, "C11-INC", "C11-DEC", "C11-RMW")
     sched.silent_drop_rule(run, f, "C11-NO-SILENT-DROP")
     pool.stop_rule(run, f, "C11-STOP")
+    # clauses added for the wave-2 seeds (rules/wave2.py; DESIGN 12a)
+    wave2.worker_exit_rule(run, f, "C11-WORKER-EXIT")
     return run.finish()
